@@ -108,7 +108,8 @@ TrCfg ==
   /\ pkt' = <<>>
   /\ rcvd' = [e \in EP |-> {}] /\ skipTo' = [e \in EP |-> -1]
   /\ ackCum' = [e \in EP |-> -1] /\ ackGap' = [e \in EP |-> {}]
-  /\ arw' = [e \in EP |-> 0] /\ outst' = [e \in EP |-> 0]
+  \* started from exchanged tokens there is no INIT / INIT-ACK on the wire: the peer's window is the one in its token
+  /\ arw' = [e \in EP |-> IF "tokens" \in DOMAIN E /\ E.tokens THEN (IF e = 0 THEN E.B.buf ELSE E.A.buf) ELSE 0] /\ outst' = [e \in EP |-> 0]
   /\ lastSack' = [e \in EP |-> -1] /\ sackEv' = [e \in EP |-> <<>>]
   /\ sn' = [e \in EP |-> NoSnap]
   /\ step' = [ev |-> "none"]
